@@ -361,8 +361,9 @@ def tallyOne (env : Env) (s : St) (u : String) : Res St :=
       if o.rejected then
         let s1 := { s with items := setItem s.items { it with status := .rej, ts := s.now } }
         let n : Int := invs.length
-        if n = 0 ∧ ¬ it.pubColl.isEmpty then .panic .divZero else
-        let reward := rewardShare it.pubColl n
+        -- no recorded challenger (an item re-imported from a genesis export, which drops the invalidities): nothing is
+        -- divided, the publish collateral stays in the module account (fix: abci.go, rejected branch)
+        let reward := rewardShare (if n = 0 then [] else it.pubColl) n
         let s2 := invs.foldl (payChallenger (it.invColl ++ reward)) s1
         .ok { s2 with dust := addDust s2.dust it.pubColl reward n }
       else
